@@ -836,7 +836,8 @@ fn chain_is_force_broken(ast: &Ast, idx: AstIndex, cbt: u8) -> bool {
             }
             _ => last_node_was_access = false,
         }
-        if dot_access_count >= cbt as u32 {
+        // (0 disables the threshold: /repo 0a09720)
+        if cbt > 0 && dot_access_count >= cbt as u32 {
             return true;
         }
         match chain_next {
@@ -1201,20 +1202,36 @@ fn static_shapes(src: &str, ast: &Ast, toks: &[Tk]) -> Vec<&'static str> {
             }
         }
     }
-    // F-C11-7: a `#[fmt:skip]` directive (the skipped node's source region is copied verbatim)
-    if toks.iter().any(|t| t.token == Token::CommentSingle && {
-        let sl = src[t.sb..t.eb].trim();
-        sl.strip_prefix("#[fmt:").and_then(|r| r.strip_suffix(']')).is_some_and(|c| c.trim() == "skip")
-    }) {
-        v.push("fmt_skip");
-    }
-    // F-C11-8: an end-of-line comment directly after the `=` of an assignment (value on the next lines)
+    // F-C11-7: a `#[fmt:skip]` directive in front of a node that spans several lines (the skipped region
+    // is copied verbatim: its continuation lines keep the input's absolute indentation). One-line
+    // skipped nodes are NOT in the shape: every clause is enforced on them.
     for (i, t) in toks.iter().enumerate() {
-        if matches!(t.token, Token::CommentSingle | Token::CommentMulti) {
-            let prev = toks[..i].iter().rev().find(|p| p.token != Token::Whitespace);
-            if prev.is_some_and(|p| p.token == Token::Assign && p.eline == t.line) {
-                v.push("comment_after_assign");
+        let is_directive = t.token == Token::CommentSingle && {
+            let sl = src[t.sb..t.eb].trim();
+            sl.strip_prefix("#[fmt:").and_then(|r| r.strip_suffix(']')).is_some_and(|c| c.trim() == "skip")
+        };
+        if !is_directive {
+            continue;
+        }
+        let Some(first) = toks[i + 1..].iter().find(|n| !matches!(n.token, Token::Whitespace | Token::NewLine | Token::CommentSingle | Token::CommentMulti)) else { continue };
+        // F-C11-12: the skipped statement starts with `if`, `match` or `let`: the node's span does not
+        // cover the statement (block `if` / `match` statement: the keyword only; `let`: without `let`)
+        if matches!(first.token, Token::If | Token::Match | Token::Let) {
+            v.push("fmt_skip_short_span");
+        }
+        // the outermost expression/statement node that starts at that token (blocks excluded)
+        let mut end_line = first.line;
+        for n in ast.nodes() {
+            if matches!(n.node, Node::MainBlock { .. } | Node::Block(_)) {
+                continue;
             }
+            let sp = ast.span(n.span);
+            if sp.start.line == first.line && sp.start.column == first.col && sp.end.line > end_line {
+                end_line = sp.end.line;
+            }
+        }
+        if end_line > first.line {
+            v.push("fmt_skip_multiline");
         }
     }
     v.sort();
@@ -1475,9 +1492,10 @@ fn rust_test_strings(rs: &str) -> Vec<String> {
 }
 
 fn load_corpus() -> Vec<Prog> {
+    let repo = std::env::var("KOTO_REPO").unwrap_or_else(|_| "/repo".to_string());
     let mut progs = vec![];
     let mut files = vec![];
-    walk(std::path::Path::new("/repo"), &["koto"], &mut files);
+    walk(std::path::Path::new(&repo), &["koto"], &mut files);
     for f in &files {
         if let Ok(s) = std::fs::read_to_string(f) {
             let p = f.display().to_string();
@@ -1488,7 +1506,7 @@ fn load_corpus() -> Vec<Prog> {
         }
     }
     let mut mds = vec![];
-    walk(std::path::Path::new("/repo"), &["md"], &mut mds);
+    walk(std::path::Path::new(&repo), &["md"], &mut mds);
     for f in &mds {
         if let Ok(s) = std::fs::read_to_string(f) {
             for (i, (b, runnable)) in markdown_blocks(&s).into_iter().enumerate() {
@@ -1497,7 +1515,7 @@ fn load_corpus() -> Vec<Prog> {
         }
     }
     let mut rss = vec![];
-    walk(std::path::Path::new("/repo/crates"), &["rs"], &mut rss);
+    walk(&std::path::Path::new(&repo).join("crates"), &["rs"], &mut rss);
     for f in rss.iter().filter(|p| p.display().to_string().contains("/tests/")) {
         if let Ok(s) = std::fs::read_to_string(f) {
             for (i, b) in rust_test_strings(&s).into_iter().enumerate() {
@@ -1852,7 +1870,7 @@ impl Gen {
     fn stmt(&mut self, ind: usize, d: u32) {
         let pad = " ".repeat(ind);
         let st = self.step;
-        let choice = if d == 0 { self.rng.weighted(&[6, 5, 1, 1]) } else { self.rng.weighted(&[6, 5, 1, 1, 3, 3, 2, 2, 2, 2, 2, 2, 1, 1, 1, 1]) };
+        let choice = if d == 0 { self.rng.weighted(&[6, 5, 1, 1]) } else { self.rng.weighted(&[6, 5, 1, 1, 3, 3, 2, 2, 2, 2, 2, 2, 1, 1, 1, 1, 2]) };
         match choice {
             0 => {
                 // assignment
@@ -2175,6 +2193,7 @@ impl Gen {
                 let b = self.num(1);
                 self.line(ind, &format!("print {a} + #- inline -# {b}"));
             }
+            16 => self.skip_stmt(ind),
             _ => {
                 // lines with non-ASCII text and no number literal / comment after it
                 let idb = *self.rng.pick(&NONASCII_IDS);
@@ -2188,6 +2207,89 @@ impl Gen {
             }
         }
     }
+    /// `#[fmt:skip]` in front of a one-line or multi-line node of every statement kind, with inline
+    /// comments in the token gaps (including the node's last line), a trailing comment after the node
+    /// and comments on the directive's own line.
+    fn skip_stmt(&mut self, ind: usize) {
+        // (token, gap after it): 'n' none, 'o' optional white space / comment, 's' at least one space
+        const T: &[&[(&str, char)]] = &[
+            &[("m", 'o'), ("=", 'o'), ("[", 'o'), ("1", 'o'), (",", 'o'), ("0", 'o'), (",", 'o'), ("1", 'o'), ("]", 'n')],
+            &[("t", 'o'), ("=", 'o'), ("(", 'o'), ("1", 'o'), (",", 'o'), ("'a'", 'o'), (")", 'n')],
+            &[("mm", 'o'), ("=", 'o'), ("{", 'o'), ("a", 'o'), (":", 'o'), ("1", 'o'), (",", 'o'), ("b", 'o'), (":", 'o'), ("2", 'o'), ("}", 'n')],
+            &[("s", 'o'), ("=", 'o'), ("1", 's'), ("+", 's'), ("2", 's'), ("*", 's'), ("3", 'n')],
+            &[("print", 's'), ("1", 'o'), (",", 'o'), ("'x'", 'n')],
+            &[("print", 'n'), ("(", 'o'), ("1", 'o'), (",", 'o'), ("2", 'o'), (")", 'n')],
+            &[("q", 'o'), ("=", 'o'), ("if", 's'), ("true", 's'), ("then", 's'), ("1", 's'), ("else", 's'), ("2", 'n')],
+            &[("fs", 'o'), ("=", 'o'), ("|", 'o'), ("a", 'o'), (",", 'o'), ("b", 'o'), ("|", 's'), ("a", 's'), ("+", 's'), ("b", 'n')],
+            &[("a2", 'o'), (",", 'o'), ("b2", 'o'), ("=", 'o'), ("1", 'o'), (",", 'o'), ("2", 'n')],
+            &[("export", 's'), ("ev", 'o'), ("=", 'o'), ("3", 'n')],
+            &[("st", 'o'), ("=", 'o'), ("'a {1 + 2} b'", 'n')],
+            &[("l2", 'o'), ("=", 'o'), ("[", 'o'), ("1", 'o'), (",", 'o'), ("2", 'o'), ("]", 'n'), (".size()", 'n')],
+            &[("x9", 'o'), ("=", 'o'), ("not", 's'), ("true", 's'), ("and", 's'), ("false", 'n')],
+            &[("let", 's'), ("lv", 'o'), (":", 'o'), ("Number", 'o'), ("=", 'o'), ("7", 'n')],
+            &[("c1", 'o'), ("=", 'o'), ("1", 's'), ("<", 's'), ("2", 's'), ("<=", 's'), ("3", 'n')],
+            &[("from", 's'), ("number", 's'), ("import", 's'), ("pi", 'o'), (",", 'o'), ("e", 'n')],
+        ];
+        let pad = " ".repeat(ind);
+        // the directive: on its own line, behind an inline comment, or trailing the previous statement
+        match self.rng.below(5) {
+            0 => self.out.push_str(&format!("{pad}#- pre -# #[fmt:skip]\n")),
+            1 => self.out.push_str(&format!("{pad}zz = 0 #[fmt:skip]\n")),
+            2 => self.out.push_str(&format!("{pad}#[fmt: skip ]\n")),
+            _ => self.out.push_str(&format!("{pad}#[fmt:skip]\n")),
+        }
+        let mut k = 0;
+        let mut comment = |rng: &mut Rng| {
+            k += 1;
+            format!("#- {}{} -#", *rng.pick(&["c", "note ", "k"]), k)
+        };
+        if self.rng.chance(1, 5) {
+            // multi-line block statements (in the shape of F-C11-7: clauses 2/3/5 may be attributed, 4 is enforced)
+            let c1 = comment(&mut self.rng);
+            let c2 = comment(&mut self.rng);
+            let st = " ".repeat(self.step + self.rng.below(3));
+            let t = match self.rng.below(3) {
+                0 => format!("{pad}if true {c1}\n{pad}{st}print 1   {c2}\n"),
+                1 => format!("{pad}for sk in 0..2   {c1}\n{pad}{st}print   sk {c2}\n"),
+                _ => format!("{pad}sm = match 1 {c1}\n{pad}{st}1   then  2\n{pad}{st}else {c2} 3\n"),
+            };
+            self.out.push_str(&t);
+            return;
+        }
+        let tpl = *self.rng.pick(T);
+        let multiline = self.rng.chance(1, 4);
+        let mut text = String::new();
+        for (tok, gap) in tpl.iter() {
+            text.push_str(tok);
+            let g = match gap {
+                'n' => String::new(),
+                's' => match self.rng.below(4) {
+                    0 => " ".to_string(),
+                    1 => "   ".to_string(),
+                    _ => format!(" {} ", comment(&mut self.rng)),
+                },
+                _ => match self.rng.below(6) {
+                    0 => String::new(),
+                    1 => " ".to_string(),
+                    2 => "   ".to_string(),
+                    3 => comment(&mut self.rng),
+                    4 if multiline && matches!(*tok, "[" | "(" | "{" | ",") => {
+                        let c = if self.rng.chance(1, 2) { format!(" {}", comment(&mut self.rng)) } else { String::new() };
+                        format!("{c}\n{pad}{}", " ".repeat(self.step + 2))
+                    }
+                    _ => format!(" {} ", comment(&mut self.rng)),
+                },
+            };
+            text.push_str(&g);
+        }
+        let trailing = match self.rng.below(4) {
+            0 => format!(" # t{}", self.counter),
+            1 => format!("  {}", comment(&mut self.rng)),
+            _ => String::new(),
+        };
+        self.out.push_str(&format!("{pad}{text}{trailing}\n"));
+    }
+
     fn program(mut self) -> String {
         if self.rng.chance(1, 5) {
             self.out.push_str("# leading comment\n");
@@ -2249,8 +2351,8 @@ const FINDINGS: &[(&str, &str, &[&str])] = &[
     ("F-C11-5", "nested_chain_break", &["2:", "3:", "5:"]),
     ("F-C11-11", "trailing_comment_moved_to_own_line", &["5:idempotence"]),
     ("F-C11-6", "input_line_wider_than_line_length", &["2:", "3:", "5:"]),
-    ("F-C11-7", "fmt_skip", &["2:", "3:", "5:"]),
-    ("F-C11-8", "comment_after_assign", &["5:idempotence"]),
+    ("F-C11-7", "fmt_skip_multiline", &["2:", "3:", "5:"]),
+    ("F-C11-12", "fmt_skip_short_span", &["2:", "3:", "5:", "6:"]),
     ("F-C11-9", "block_expr_operand", &["2:", "3:", "5:"]),
     ("F-C11-9", "line_starts_with_minus", &["2:", "3:", "5:"]),
     ("F-C11-10", "comment_before_closer", &["2:", "3:", "4:", "5:"]),
